@@ -1,7 +1,7 @@
 """C04 (engine EXEC): the generated pysnmp text is valid Python, loads against a MibBuilder, exports every symbol and
 agrees with the JSON document - decided by executing the real template + compile() + pysnmp on every solver-explored shape."""
+from harness.c03_json import *            # noqa: F401,F403  (names used by requires: lines and known-finding carve-outs of `symbols`)
 from harness.c04_pysnmp import *          # noqa: F401,F403
-from harness.c03_json import symbols as _symbols
 from harness import c04_pysnmp as _b, c03_json as _c3, execpy
 
 execpy.install(globals(), _b, ['agreement', 'closure', 'type_order'], ('kind', 'oid', 'access', 'basetype', 'constraints', 'default', 'refs'))
@@ -24,9 +24,8 @@ def conditions(prop, tier):
                     bounds=X + 'chains of three derived types in every declaration order load (class definition order)'))
     if not q:
         for k0 in range(13):
-            out.append(dict(name='C04.exec.symbols.k%d' % k0, fn='x_symbols', fixed=dict(k0=k0, n=3),
-                            extra_pre=['l0 < 4 and l1 < 4 and l2 < 4'], timeout=t,
-                            bounds=X + 'three declarations of any kinds with names from the pool'))
+            out.append(dict(name='C04.exec.symbols.k%d' % k0, fn='x_symbols', fixed=dict(k0=k0, n=3, l0=0, l1=1, l2=2, u0=0, u1=1, u2=2, genTexts=True),
+                            timeout=t, bounds=X + 'three declarations: kind %d followed by every ordered pair of the 13 kinds (plain, hyphenated and keyword-free names)' % k0))
     return out
 
 
